@@ -125,7 +125,7 @@ func runC19(c *Ctx, r *Report) {
 	importFoundation(c, r, "C19", "platform-fresh")
 	r.Rule("C19/O1O2", "ignored sentinel only on the non-matching path and never after a store; no success without the store; stores only into the asserted target", 45)
 	r.Rule("C19/O3", "each option stores exactly the setting the specification names, taking the value from its own parameter or constant", 45)
-	r.Rule("C19/O4", "every constructor applies the full option list, in order, to every target type, skipping only the ignored sentinel", 10)
+	r.Rule("C19/O4", "every constructor applies the full option list, in order, to every target type, skipping only the ignored sentinel", 6)
 	r.Rule("C19/fresh-objects", "every exported New* constructor of the library hands out an object allocated by that call: settings applied to one driver / transport / channel / operation never show up in another", 15)
 	checkFreshConstructors(c, r, "C19/fresh-objects", nil, "the object is shared between callers, so a setting applied through one of them is in force for all the others")
 	r.Rule("C19/validated-is-stored", "an option that checks its argument against a list of valid values stores the very value it checked", 2)
@@ -279,6 +279,13 @@ func concreteTypesOf(v ssa.Value, seen map[ssa.Value]bool, out map[string]bool) 
 				t := sc.Signature.Results().At(x.Index).Type()
 				if !types.IsInterface(t) {
 					out[typeShort(t)] = true
+				} else if len(sc.Blocks) > 0 && sc.Pkg != nil && isLibPkgPath(sc.Pkg.Pkg.Path()) {
+					// a helper that selects the implementation: whatever its returns may hold
+					allInstrs(sc, func(in ssa.Instruction) {
+						if ret, ok := in.(*ssa.Return); ok && x.Index < len(ret.Results) {
+							concreteTypesOf(ret.Results[x.Index], seen, out)
+						}
+					})
 				}
 			}
 		}
@@ -286,10 +293,28 @@ func concreteTypesOf(v ssa.Value, seen map[ssa.Value]bool, out map[string]bool) 
 }
 
 func (c *Ctx) applyTargets(fn *ssa.Function, list ssa.Value, r *Report, visited map[*ssa.Function]bool, out map[string]bool) {
-	if visited[fn] {
+	c.applyTargetsBound(fn, list, r, map[string]bool{}, out, nil)
+}
+
+// applyTargetsBound: bind maps the parameters of fn to the caller's values, so that an apply loop written once in a
+// helper (applyOptions(o interface{}, options)) is attributed to the type each call site passes for o.
+func (c *Ctx) applyTargetsBound(fn *ssa.Function, list ssa.Value, r *Report, visited map[string]bool, out map[string]bool, bind map[*ssa.Parameter]ssa.Value) {
+	vk := fmt.Sprintf("%p", fn)
+	for _, p := range fn.Params {
+		if b := bind[p]; b != nil {
+			vk += fmt.Sprintf("/%p", b)
+		}
+	}
+	if visited[vk] {
 		return
 	}
-	visited[fn] = true
+	visited[vk] = true
+	resolve := func(v ssa.Value) ssa.Value {
+		if p, ok := v.(*ssa.Parameter); ok && bind[p] != nil {
+			return bind[p]
+		}
+		return v
+	}
 	ignored := c.LookupVar("util", "ErrIgnoredOption")
 	for _, ci := range callInstrs(fn) {
 		call, ok := ci.(*ssa.Call)
@@ -307,7 +332,7 @@ func (c *Ctx) applyTargets(fn *ssa.Function, list ssa.Value, r *Report, visited 
 					r.Unk("C19/O4", construct, c.Pos(call.Pos()), "option list is not iterated by a range loop; iteration order/completeness cannot be established")
 					continue
 				}
-				arg := cc.Args[0]
+				arg := resolve(cc.Args[0])
 				ts := map[string]bool{}
 				if mi, ok := arg.(*ssa.MakeInterface); ok {
 					ts[typeShort(mi.X.Type())] = true
@@ -336,7 +361,13 @@ func (c *Ctx) applyTargets(fn *ssa.Function, list ssa.Value, r *Report, visited 
 		}
 		for i, a := range cc.Args {
 			if i < len(sc.Params) && derivesFull(a, list, 0) {
-				c.applyTargets(sc, sc.Params[i], r, visited, out)
+				nb := map[*ssa.Parameter]ssa.Value{}
+				for j, other := range cc.Args {
+					if j != i && j < len(sc.Params) {
+						nb[sc.Params[j]] = resolve(other)
+					}
+				}
+				c.applyTargetsBound(sc, sc.Params[i], r, visited, out, nb)
 			}
 		}
 	}
